@@ -167,6 +167,19 @@ def table_rule(ctx, crate):
                 ok = pe[0] == "field" and pe[1] == 1
         ctx.ob("R17-3", u.path, "unalias passes its argument word unchanged to remove_alias", ok,
                key="R17-3|%s|arg" % u.path, crate=crate.kind)
+    if u is not None:
+        # unalias touches the table only through remove_alias(word): no clear / retain / drain / other key
+        MUT = {"clear", "retain", "drain", "remove", "remove_entry", "insert", "extend", "entry", "get_mut", "iter_mut", "values_mut"}
+        bad = []
+        for bb, t, c in u.calls():
+            if last_seg(c) in MUT and any(flow.is_field_named(x, "aliases") for a in u.call_args(bb)
+                                           for x in mir.subexprs(u.expand_vars(strip_sites(a)))):
+                bad.append((bb, last_seg(c)))
+        n_rm = len([1 for bb, t, c in u.calls() if last_seg(c) == "remove_alias"])
+        ctx.ob("R17-3", u.path, "unalias changes the alias table only through remove_alias(<its argument>)", not bad and n_rm == 1,
+               key="R17-3|%s|only-remove-alias" % u.path, where=u.loc(bad[0][0]) if bad else "", crate=crate.kind,
+               detail=None if not bad else "aliases.%s() in unalias: some argument value (an alias may be named `-a`) removes "
+               "more than the alias it names" % bad[0][1])
     gl = crate.fn("shell::Shell::get_alias_list")
     if gl is not None:
         ctx.analysed(gl)
